@@ -702,12 +702,27 @@ impl KeyKeeper {
             })?
         };
 
-        serde_json::from_str::<Key>(&key_data).map_err(|e| {
+        let key = serde_json::from_str::<Key>(&key_data).map_err(|e| {
             Error::Key(crate::common::error::KeyErrorType::FetchLocalKey(format!(
                 "Parse key data with error: {}",
                 e
             )))
-        })
+        })?;
+
+        // the file must hold the key it is named after: using another key under this name would sign
+        // every request with an id the host does not know, and the mismatch would never heal
+        if key.guid != key_guid {
+            return Err(Error::Key(
+                crate::common::error::KeyErrorType::FetchLocalKey(format!(
+                    "Key file '{}' holds the key '{}' instead of '{}'.",
+                    key_file.display(),
+                    key.guid,
+                    key_guid
+                )),
+            ));
+        }
+
+        Ok(key)
     }
 
     fn fetch_key(key_dir: &Path, key_guid: &str) -> Result<Key> {
